@@ -1724,20 +1724,14 @@ impl Vm {
         let range = Root::new(ObjRange::new(class, begin, end));
         let range_gc = range.as_gc();
 
-        // Check the cache size. If we're at the limit, evict the oldest element.
+        // Check the cache size. If we're at the limit, evict the oldest element. The cache is kept
+        // in insertion order, so that is the first one. (Which element is the oldest must not be
+        // decided by comparing clock readings taken one after the other: ranges compare by
+        // identity, so the choice is visible to the program.)
         if self.range_cache.len() >= RANGE_CACHE_SIZE {
-            let stale_pos = self
-                .range_cache
-                .iter()
-                .enumerate()
-                .max_by(|first, second| first.1 .1.elapsed().cmp(&second.1 .1.elapsed()))
-                .map(|e| e.0)
-                .expect("Expect to find max given non-empty Vec.");
-
-            self.range_cache[stale_pos] = (range, time::Instant::now());
-        } else {
-            self.range_cache.push((range, time::Instant::now()));
+            self.range_cache.remove(0);
         }
+        self.range_cache.push((range, time::Instant::now()));
 
         range_gc
     }
